@@ -31,16 +31,18 @@ Dict  == ndJsonDeserialize("dict.ndjson")[1]      \* [names: seq of strings, cal
 ToSet(s) == {s[i] : i \in DOMAIN s}
 NameSet == ToSet(Dict.names)
 CallerSet == ToSet(Dict.callers)
+ReaderSet == ToSet(Dict.readers)        \* goroutines that call handles concurrently with everything else
 MaxVer == Dict.maxver
 
 VARIABLES cfg, svc, m, handles, cache, phase, closed, ini, poll, lk, rq, call, now, hist, out,
           l,      \* next line
           rets,   \* returns the specification has produced and the trace has not shown yet: set of <<call, caller, res>>
-          owed    \* a cache write the specification has produced and the trace has not shown yet: Nil | [doc, ok]
+          owed,   \* a cache write the specification has produced and the trace has not shown yet: Nil | [doc, ok]
+          rd      \* [ReaderSet -> Nil | [name, got]]  a concurrent handle call between its begin and end lines
 S == INSTANCE Store WITH Names <- NameSet, Callers <- CallerSet, ZeroStamp <- -1000000
 
 svars == <<cfg, svc, m, handles, cache, phase, closed, ini, poll, lk, rq, call, now, hist, out>>
-vars == <<svars, l, rets, owed>>
+vars == <<svars, l, rets, owed, rd>>
 
 \* every line carries the virtual time at which it was logged; a line is consumed at that time exactly
 Line(ev) == l <= Len(Trace) /\ Trace[l].ev = ev /\ Trace[l].t = now
@@ -128,10 +130,19 @@ TRet ==
        /\ rets' = rets \ {<<E.call, E.caller, r>>}
   /\ Adv /\ UNCHANGED <<svars, owed>>
 
+(* --- concurrent readers: the call happens somewhere between its begin line and its end line ------------------- *)
+TRBegin == Line("rbegin") /\ rd[E.reader] = Nil /\ rd' = [rd EXCEPT ![E.reader] = [name |-> E.name, got |-> Nil]]
+           /\ Adv /\ UNCHANGED <<svars, rets, owed>>
+SRead   == \E r \in ReaderSet : /\ rd[r] # Nil /\ rd[r].got = Nil
+                                /\ S!Read(rd[r].name) /\ rd' = [rd EXCEPT ![r].got = out'.ver]
+                                /\ UNCHANGED <<l, rets, owed>>
+TREnd   == Line("rend") /\ rd[E.reader] # Nil /\ rd[E.reader].got = E.ver /\ rd' = [rd EXCEPT ![E.reader] = Nil]
+           /\ Adv /\ UNCHANGED <<svars, rets, owed>>
+
 (* --- steps without a line ----------------------------------------------------------------------------------- *)
 Silent ==
   /\ owed = Nil
-  /\ \/ S!InitRoundEnd \/ S!InitWake \/ S!PollFinish
+  /\ \/ S!InitRoundEnd \/ S!InitWake \/ S!PollFinish \/ S!PollerExit
      \/ \E n \in NameSet : (S!PollStep(n) /\ out'.ev = "expire")
      \/ \E k \in CallerSet : ((S!LookupEnter(k) /\ out'.ev = "join") \/ S!LookupGiveUp(k) \/ S!CtxExpire(k))
      \/ (cfg.fileClient /\ \E n \in NameSet : (S!InitReq(n) \/ S!InitResp(n, FALSE)))    \* a file-backed client is not scripted
@@ -140,29 +151,31 @@ Silent ==
 \* a new history: everything starts over (a fresh process)
 TReset ==
   /\ l <= Len(Trace) /\ Trace[l].ev = "reset" /\ Quiet
-  /\ cfg' = S!NoCfg /\ m' = [n \in NameSet |-> Nil] /\ handles' = {} /\ phase' = "config" /\ closed' = FALSE
+  /\ cfg' = S!NoCfg /\ m' = [n \in NameSet |-> Nil] /\ handles' = {} /\ phase' = "config" /\ closed' = "open"
   /\ ini' = S!NoIni /\ poll' = Nil /\ lk' = [n \in NameSet |-> Nil] /\ rq' = [n \in NameSet |-> Nil]
   /\ call' = [k \in CallerSet |-> Nil] /\ now' = 0
   /\ hist' = [served |-> [n \in NameSet |-> {}], inst |-> [n \in NameSet |-> <<>>], supplied |-> {}]
   /\ svc' = [n \in NameSet |-> [ver |-> 1, mode |-> "ok"]]
   /\ cache' = [kind |-> "none", doc |-> S!NoDoc, wfail |-> FALSE]
-  /\ out' = [ev |-> "init"] /\ rets' = {} /\ owed' = Nil /\ Adv
+  /\ out' = [ev |-> "init"] /\ rets' = {} /\ owed' = Nil /\ rd' = [r \in ReaderSet |-> Nil] /\ Adv
 
 \* end of a history: nothing may be left owed or in flight that the specification says must have happened
-TEnd == Line("end") /\ Quiet /\ ~S!Urgent /\ Adv /\ UNCHANGED <<svars, rets, owed>>
+TEnd == Line("end") /\ Quiet /\ ~S!Urgent /\ (\A r \in ReaderSet : rd[r] = Nil) /\ Adv /\ UNCHANGED <<svars, rets, owed>>
 
 Init ==
   /\ S!Init /\ svc = [n \in NameSet |-> [ver |-> 1, mode |-> "ok"]]
   /\ cache = [kind |-> "none", doc |-> S!NoDoc, wfail |-> FALSE]
-  /\ l = 1 /\ rets = {} /\ owed = Nil
+  /\ l = 1 /\ rets = {} /\ owed = Nil /\ rd = [r \in ReaderSet |-> Nil]
 
-Next == TNewStore \/ TSvc \/ TSvcMode \/ TTime \/ TAdv \/ TRefresh \/ TTick \/ THandle \/ TRead \/ TLookup \/ TCancel \/ TClose
-        \/ TCacheFault \/ TReq \/ TResp \/ TCacheW \/ TRet \/ Silent \/ TReset \/ TEnd
+Main == TNewStore \/ TSvc \/ TSvcMode \/ TTime \/ TAdv \/ TRefresh \/ TTick \/ THandle \/ TRead \/ TLookup \/ TCancel \/ TClose
+        \/ TCacheFault \/ TReq \/ TResp \/ TCacheW \/ TRet \/ Silent \/ TEnd
+Next == (Main /\ UNCHANGED rd) \/ TRBegin \/ SRead \/ TREnd \/ TReset
 
 (* --- the specification's properties, evaluated on every state of every accepted history ------------------------ *)
 InitOK == S!InitOK
 HandleNeverDangles == S!HandleNeverDangles
 InstalledServed == S!InstalledServed
+InstLast == S!InstLast
 PollConverges == S!PollConverges
 Coalesce == S!Coalesce
 LookupGate == S!LookupGate
